@@ -7,7 +7,7 @@ import os
 import sys
 
 from .. import model, symx
-from ..interp import Machine, Adt, Term, PyVec, PyIter, explore, ok, err, RESULT
+from ..interp import Machine, Adt, Term, PyVec, PyIter, explore, ok, err, RESULT, Panic
 from ..report import Unsupported
 
 sys.path.insert(0, os.path.join(os.path.dirname(__file__), "..", ".."))
@@ -490,6 +490,50 @@ def check_lift_guard(chk, F):
         except Panic as e:
             chk.fail(rid, ctx, "panic: %s" % e, where="src/policy/mod.rs")
     chk.floor(rid, "cases", n, 48)
+
+
+def check_local_validity_table(chk, F, rid):
+    """ScriptContext::check_local_validity = all four primitive checks, per context"""
+    import itertools
+    chk.rule(rid, "ScriptContext::check_local_validity - the filter the policy compiler applies to every candidate "
+                  "(insert_elem) and the test behind within_resource_limits - fails exactly when one of the context's four "
+                  "checks (global consensus, global policy, local consensus, local policy) fails, in every script context")
+    PARTS = ["check_global_consensus_validity", "check_global_policy_validity", "check_local_consensus_validity",
+             "check_local_policy_validity"]
+    d = "miniscript::context::ScriptContext::check_local_validity"
+    n = 0
+    for ctx in ("Legacy", "Segwitv0", "Tap", "BareCtx"):
+        ctxp = "miniscript::context::" + ctx
+        own = "<%s as miniscript::context::ScriptContext>::check_local_validity" % ctxp
+        p = own if own in F.bodies else d
+        if p not in F.bodies:
+            chk.fail(rid, "anchor|" + ctx, "check_local_validity of %s not found" % ctx, kind="unanalysable")
+            continue
+        chk.saw(p)
+        failing = set()
+        hooks = {}
+        for part in PARTS:
+            def hook(m_, a, c, part=part):
+                return err(Term("limit", part)) if part in failing else ok(())
+            hooks["miniscript::context::ScriptContext::" + part] = hook
+            hooks["<%s as miniscript::context::ScriptContext>::%s" % (ctxp, part)] = hook
+        m = Machine(F, strict=True, hooks=hooks)
+        bad = []
+        try:
+            for fails in [()] + [(p_,) for p_ in PARTS] + [tuple(PARTS)]:
+                failing.clear()
+                failing.update(fails)
+                r = m.call_callee({"def": p, "resolved": p, "name": "check_local_validity", "targs": [ctxp, "PK"], "self_ty": ctxp,
+                                   "default_for": ctxp if p == d else None}, [Term("ms")])
+                n += 1
+                if (r.variant == "Ok") != (not fails):
+                    bad.append("failing checks %r: %s" % (list(fails), repr(r)[:80]))
+            chk.obligation(rid, not bad, ctx, "%d case(s); first: %s" % (len(bad), bad[0] if bad else ""), F.fns[p]["span"], detail=bad)
+        except Unsupported as e:
+            chk.fail(rid, "unanalysable:" + ctx, "unanalysable: %s" % e, where=e.where, kind="unanalysable")
+        except Panic as e:
+            chk.fail(rid, ctx, "panic: %s" % e, F.fns[p]["span"])
+    chk.floor(rid, "cases", n, 24)
 
 
 def run(chk):
